@@ -13,7 +13,7 @@ import common
 from common import run_cmds, run_tlc_many
 
 FAMS = ["ops", "chains", "expr", "postfix", "keyword", "object", "array", "misc"]
-LEX = ["dq", "sq", "vdq", "vsq", "num", "block"]
+LEX = ["dq", "sq", "vdq", "vsq", "num", "block", "comment"]
 
 
 def lex_sources(c):
@@ -28,7 +28,7 @@ def lex_sources(c):
         return [("", '@"' + body + '"', c["res"])]
     if fam == "vsq":
         return [("", "@'" + body + "'", c["res"])]
-    if fam == "num":
+    if fam in ("num", "comment"):
         return [("", body, c["res"])]
     lines = "\n".join(common.from_cps(p) for p in c["ps"])
     r = c["res"]
@@ -92,7 +92,8 @@ RESERVED = {"e", "E"}
 
 
 def run_lexical(chk, thorough):
-    jobs = [dict(module="Lexical", cfg=f"MC_Lexical_{f}.cfg", workers=4, timeout=3000, java_opts=("-Xss512m",)) for f in LEX]
+    jobs = [dict(module="Lexical", cfg=f"MC_Lexical_{f}{'_7' if thorough and f == 'comment' else ''}.cfg", workers=4, timeout=3000,
+                 java_opts=("-Xss512m",)) for f in LEX]
     rs = run_tlc_many(jobs, parallel=3)
     items = []
     for j, r in zip(jobs, rs):
